@@ -140,6 +140,11 @@ class N1(Symbol):
     r: Y
 
 
+@dataclass(eq=False)
+class N2(Symbol):
+    p: Y
+
+
 def newvar(case):
     """RuleNewVar.tla: a refinement whose condition introduces a variable of its own; the inferred instances as a set of
     (type, x index, y index), in two orders of the y domain."""
@@ -165,7 +170,32 @@ def newvar(case):
         except Exception as ex:
             out.append(f"{type(ex).__name__}: {ex}")
         SymbolGraph().clear()
-    return {"newvar": out}
+    # second template: refinement over x, an alternative inside it that introduces z and concludes over (x, z)
+    out2 = []
+    for rev in (False, True):
+        xs = [Y(a, 2 - a, f"x{i + 1}") for i, a in enumerate(case["xa"])]
+        zs = [Y(a, 0, f"y{i + 1}") for i, a in enumerate(case["ya"])]
+        x = let(Y, list(reversed(xs)) if rev else xs, name="x")
+        z = let(Y, zs, name="z")
+        q = an(entity(v := let(N0, None), x.name != ""))
+        try:
+            with q:
+                Add(v, inference(N0)(p=x))
+                with refinement(x.a == 1):
+                    Add(v, inference(N2)(p=x))
+                    with alternative(z.a == x.b):
+                        Add(v, inference(N1)(p=x, r=z))
+            res = []
+            for r in q.evaluate():
+                if r is None:
+                    continue
+                kind = {"N0": "T0", "N2": "T1", "N1": "T2"}[type(r).__name__]
+                res.append([kind, int(r.p.name[1:]), int(r.r.name[1:]) if isinstance(r, N1) else 0])
+            out2.append(sorted(res))
+        except Exception as ex:
+            out2.append(f"{type(ex).__name__}: {ex}")
+        SymbolGraph().clear()
+    return {"newvar": out, "refalt": out2}
 
 
 def handle(case):
